@@ -94,7 +94,11 @@ fn is_zero_big(e: &Ent) -> bool {
 
 /// Canonical class of (operation, operand types, parameter class).
 pub fn class_of(op: &Operation, tys: &[Option<IrType>], args: &[&Ent]) -> String {
-    let tn = |t: &Option<IrType>| t.as_ref().map(ty_class).unwrap_or("not-a-name");
+    let tn = |t: &Option<IrType>| match t {
+        Some(IrType::Bytes(0)) => "Bytes(0)",
+        Some(t) => ty_class(t),
+        None => "not-a-name",
+    };
     let known: Vec<IrType> = tys.iter().flatten().copied().collect();
     let all_known = known.len() == tys.len();
     let base = || tys.iter().map(tn).collect::<Vec<_>>().join(",");
